@@ -11,7 +11,8 @@ EXPLANATION = ("static analysis: parse_snapshots, parse_interactions and read_id
                "with the converted / ranked fields of the right columns, or TypeError when a conversion fails; read_ids "
                "must rank exactly the time fields of the rows the parser accepts; compact_timeslot is interpreted on "
                "three symbolic timestamps in every order (incl. negative ones when it compares with literals) and must "
-               "return their ranks")
+               "return their ranks"
+               ";  a commented-out valid row is one of the row shapes; a converted field or a rank that is 0 is also explored as falsy; compact_timeslot falls back to concrete integer sets (negative, multi-digit) when the symbolic run leaves the interpreted fragment - a violation found there stands, silence does not decide; no state shared between calls (P7)")
 
 
 def run(repo: Repo, tier, rep: Report):
